@@ -165,6 +165,7 @@ class Xrl:
             self.env.setdefault("UBSAN_OPTIONS", "halt_on_error=0:print_stacktrace=1")
         self.nproc = nproc or min(16, os.cpu_count() or 4)
         self.drivers = []
+        self.preamble = []
         self.evals = 0
 
     def _drv(self, k):
@@ -172,6 +173,8 @@ class Xrl:
             self.drivers.append(None)
         if self.drivers[k] is None or self.drivers[k].p.poll() is not None:
             self.drivers[k] = Driver(self.exe, self.env)
+            for req in self.preamble:            # per-process state (e.g. user-defined crystals) is replayed into every new driver
+                self.drivers[k].request(*req)
         return self.drivers[k]
 
     def _prep(self, sig, args):
@@ -245,6 +248,16 @@ class Xrl:
                         ls.append((b"%d" % (int(a) + off) if a.isdigit() else a) + b"\t" + b)
                     blobs.append(b"\n".join(ls) + b"\n")
         return recs, b"".join(blobs)
+
+    def define_crystals(self, specs):
+        """specs: list of 'name a b c alpha beta gamma volume natom  Z frac x y z ...'; returns their driver indices (1000+k), valid in every driver process"""
+        base = 1000 + sum(r[3] for r in self.preamble if r[1] == "defcrystal")
+        cols, pool, n = self._prep("s", [specs])
+        self.preamble.append((1, "defcrystal", 0, n, cols, pool))
+        for d in self.drivers:
+            if d is not None and d.p.poll() is None:
+                d.request(1, "defcrystal", 0, n, cols, pool)
+        return list(range(base, base + n))
 
     def call(self, name, *args, mode=0, blob=False):
         sig = self.sigs.get(name)
